@@ -14,6 +14,11 @@ def build(profile):
     args = ["cargo", "build", "--offline", "--target", TRIPLE] + (["--release"] if profile == "release" else ["--profile", profile])
     r = subprocess.run(args, cwd=os.path.join(MC, "cttrace"), env=e, stdout=subprocess.PIPE, stderr=subprocess.STDOUT, text=True)
     if r.returncode != 0:
+        # the subject may not build with verif-hooks (renamed internals): the whole-pipeline trace needs only `dudect`
+        r2 = subprocess.run(args + ["--no-default-features"], cwd=os.path.join(MC, "cttrace"), env=e, stdout=subprocess.PIPE, stderr=subprocess.STDOUT, text=True)
+        if r2.returncode == 0:
+            r = r2
+    if r.returncode != 0:
         sys.stderr.write(r.stdout[-4000:])
         return None
     return os.path.join(tdir, TRIPLE, profile, "cttrace")
@@ -42,6 +47,9 @@ def main(tier, evidence):
                 continue
             if g.get("done"):
                 done = True
+                continue
+            if g.get("no_kernels"):
+                rep.caps.append("kernel groups not traced: fips204 does not build with verif-hooks; only the whole-pipeline groups were compared")
                 continue
             name, n, d = g["group"], g["inputs"], g["distinct_traces"]
             fam = name.split(":")[0]
